@@ -107,6 +107,23 @@ CLAIMED = {
         "correspondence (character-by-character string comparison, and format_constraint_evaluation of the string vs the model), not by theorems. Interpretation S1 (DESIGN.md section 7).",
         "DESIGN.md section 5 C07",
     ),
+    "C10": (
+        "Coq proof over a model of expand_packages/expand_time_conditions on parse trees (incl. the placeholder pass) linked to the C01 parser theorems + exact-tree correspondence and the substitution equation as oracle",
+        "Props/C10.v: expansion is the one-level substitution of package leaves by their package trees; the placeholder pass re-inserts every awaited result at the occurrence that produced it (repeated/neighbouring packages); "
+        "an unknown package aborts with NotImplementedError; substitution preserves precedence derivations, hence the resolved tree equals modulo runs every parse of the bracketed substituted forest; "
+        "UB1/UB2/UB3 expansions over the table regenerated from TimeConditionTransformer (UB3's tree is the model parser's parse of its text, also in brackets).",
+        "Trusted: as C01; Gen_timecond translator. Partial: the step from the substituted TEXT to the substituted forest (lexing of the inserted '(...)') is covered by the oracle's exact tree equality on ahbicht, not by a theorem; "
+        "the lazy scan_values generator is abstracted to scan order.",
+        "DESIGN.md section 5 C10",
+    ),
+    "C18": (
+        "Coq proof (lia over regenerated range bounds; combinatorics of itertools product/combinations with filters) + translator validation on 0..3000 + ordered-list correspondence",
+        "Props/C18.v (16 theorems): the number ranges partition all key numbers; extraction lists every key once, sorted, in exactly one category and is a homomorphism for composition; "
+        "the literal combinations(product(...))-with-filters definition equals the Cartesian product as ORDERED lists for every m, n (hence Permutation, NoDup, length 2^n*3^m).",
+        "Trusted: Coq kernel, translator (Gen_ranges, validated on 3036 keys every run), hand model of extraction/sanitize/generate (validated by correspondence as ordered lists). "
+        "Interpretations I-C18 (leading zeros) and I-C18b (no keys -> []), see Props/C18.v.",
+        "DESIGN.md section 5 C18",
+    ),
 }
 
 PENDING_REASON = "not yet built in this round: the Coq model/theorems for this property are under construction (see DESIGN.md section 11); no check is claimed until it exists"
